@@ -36,20 +36,22 @@ CONSTANTS Oracle,      \* set of strings
           WithRewards, \* BOOLEAN: staking rewards are allocated (Reward)
           WithSlashOp, \* BOOLEAN: keeper-level Slash(o) is part of the alphabet
           WithObjects, \* BOOLEAN: ObjectAges (real end-block slashing path) is part of the alphabet
-          MaxBonds, MaxGovs, MaxMops, MaxTime, MaxRewards
+          MaxBonds, MaxGovs, MaxMops, MaxAges, MaxTime, MaxRewards
 
 VARIABLES reg, online, approved, bridger, ext, val, rec, slashTimes,   \* oracle records (0x12) + proposal list (0x38)
           bidx, eidx,                                                  \* reverse indexes (0x13, 0x14)
           deleg, stray, unb, dbal, bal, redelTo,                       \* staking / bank
           pend, drew, orew,                                            \* reward dust: pending in distribution / at delegate address / received by oracle
           burned, alien, odd,
-          nb, ng, nm, nt, nr,                                          \* bounding counters
+          obj, late,                                                   \* an oracle-set request awaits its signed window / oracle joined after it
+          nb, ng, nm, na, nt, nr,                                      \* bounding counters
           op   \* the operation just attempted: [name, o, b, e, v, n, set, res]
 
 rvars == <<reg, online, approved, bridger, ext, val, rec, slashTimes, bidx, eidx>>
 mvars == <<deleg, stray, unb, dbal, bal, redelTo, pend, drew, orew, burned, alien, odd>>
-cvars == <<nb, ng, nm, nt, nr>>
-svars == <<rvars, mvars, cvars>>
+ovars == <<obj, late>>
+cvars == <<nb, ng, nm, na, nt, nr>>
+svars == <<rvars, mvars, ovars, cvars>>
 vars  == <<svars, op>>
 
 None == "none"
@@ -57,7 +59,8 @@ None == "none"
 Abs == [reg |-> reg, online |-> online, approved |-> approved, bridger |-> bridger, ext |-> ext, val |-> val,
         rec |-> rec, slashTimes |-> slashTimes, bidx |-> bidx, eidx |-> eidx,
         deleg |-> deleg, stray |-> stray, unb |-> unb, dbal |-> dbal, bal |-> bal, redelTo |-> redelTo,
-        pend |-> pend, drew |-> drew, orew |-> orew, burned |-> burned, alien |-> alien, odd |-> odd]
+        pend |-> pend, drew |-> drew, orew |-> orew, burned |-> burned, alien |-> alien, odd |-> odd,
+        obj |-> obj, late |-> late]
 
 RECURSIVE SumSet(_, _)
 SumSet(S, f) == IF S = {} THEN 0 ELSE LET x == CHOOSE y \in S : TRUE IN f[x] + SumSet(S \ {x}, f)
@@ -85,7 +88,8 @@ Init ==
   /\ dbal = [o \in Oracle |-> 0] /\ bal = [o \in Oracle |-> 0] /\ redelTo = [o \in Oracle |-> None]
   /\ pend = [o \in Oracle |-> FALSE] /\ drew = [o \in Oracle |-> FALSE] /\ orew = [o \in Oracle |-> FALSE]
   /\ burned = 0 /\ alien = 0 /\ odd = FALSE
-  /\ nb = 0 /\ ng = 0 /\ nm = 0 /\ nt = 0 /\ nr = 0
+  /\ obj = FALSE /\ late = [o \in Oracle |-> FALSE]
+  /\ nb = 0 /\ ng = 0 /\ nm = 0 /\ na = 0 /\ nt = 0 /\ nr = 0
   /\ op = Op("Init", None, None, None, None, 0, <<>>, "ok")
 
 Rej(o) == /\ op' = [o EXCEPT !.res = "rej"] /\ UNCHANGED svars
@@ -103,8 +107,9 @@ Bond(o, b, e, a, v) ==
      /\ rec' = [rec EXCEPT ![o] = a] /\ slashTimes' = [slashTimes EXCEPT ![o] = 0]
      /\ bidx' = [bidx EXCEPT ![b] = o] /\ eidx' = [eidx EXCEPT ![e] = o]
      /\ deleg' = [deleg EXCEPT ![o] = @ + a] /\ bal' = [bal EXCEPT ![o] = @ - a]
+     /\ late' = [late EXCEPT ![o] = obj]       \* StartHeight = now: after every request created so far
      /\ nb' = nb + 1 /\ op' = this
-     /\ UNCHANGED <<approved, stray, unb, dbal, redelTo, pend, drew, orew, burned, alien, odd, ng, nm, nt, nr>>
+     /\ UNCHANGED <<approved, stray, unb, dbal, redelTo, pend, drew, orew, burned, alien, odd, obj, ng, nm, na, nt, nr>>
 
 (* MsgAddDelegate with amount = penalty owed + add.  The penalty is burned  *)
 (* from the oracle account, `add` is delegated at the record's validator,   *)
@@ -126,8 +131,10 @@ AddDelegate(o, add) ==
      \* delegating to an existing delegation pays out its pending rewards to the delegate address
      /\ drew' = [drew EXCEPT ![o] = @ \/ (add > 0 /\ pend[o])]
      /\ pend' = [pend EXCEPT ![o] = IF add > 0 THEN FALSE ELSE @]
+     \* an oracle that comes back online (re)joins NOW, whatever took it offline (slash or governance removal)
+     /\ late' = [late EXCEPT ![o] = IF online[o] THEN @ ELSE obj]
      /\ nm' = nm + 1 /\ op' = this
-     /\ UNCHANGED <<reg, approved, bridger, ext, val, bidx, eidx, stray, unb, dbal, redelTo, orew, alien, odd, nb, ng, nt, nr>>
+     /\ UNCHANGED <<reg, approved, bridger, ext, val, bidx, eidx, stray, unb, dbal, redelTo, orew, alien, odd, obj, nb, ng, na, nt, nr>>
 
 (* MsgReDelegate: online oracle moves its whole delegation to validator v;  *)
 (* staking refuses while the source validator still has an incoming         *)
@@ -140,7 +147,7 @@ ReDelegate(o, v) ==
      /\ drew' = [drew EXCEPT ![o] = @ \/ pend[o]] /\ pend' = [pend EXCEPT ![o] = FALSE]
      /\ nm' = nm + 1 /\ op' = this
      /\ UNCHANGED <<reg, online, approved, bridger, ext, rec, slashTimes, bidx, eidx, deleg, stray, unb, dbal, bal, orew,
-                    burned, alien, odd, nb, ng, nt, nr>>
+                    burned, alien, odd, ovars, nb, ng, na, nt, nr>>
 
 EditBridger(o, b) ==
   LET this == Op("EditBridger", o, b, None, None, 0, <<>>, "ok")
@@ -149,7 +156,7 @@ EditBridger(o, b) ==
      /\ bidx' = [bidx EXCEPT ![bridger[o]] = None, ![b] = o]
      /\ bridger' = [bridger EXCEPT ![o] = b]
      /\ nm' = nm + 1 /\ op' = this
-     /\ UNCHANGED <<reg, online, approved, ext, val, rec, slashTimes, eidx, mvars, nb, ng, nt, nr>>
+     /\ UNCHANGED <<reg, online, approved, ext, val, rec, slashTimes, eidx, mvars, ovars, nb, ng, na, nt, nr>>
 
 (* MsgWithdrawReward: online oracle with a delegation; pending rewards go   *)
 (* to the delegate address, then EVERYTHING liquid there goes to the oracle *)
@@ -162,7 +169,7 @@ WithdrawReward(o) ==
      /\ orew' = [orew EXCEPT ![o] = @ \/ pend[o] \/ drew[o]]
      /\ pend' = [pend EXCEPT ![o] = FALSE] /\ drew' = [drew EXCEPT ![o] = FALSE]
      /\ nm' = nm + 1 /\ op' = this
-     /\ UNCHANGED <<rvars, deleg, stray, unb, redelTo, burned, alien, odd, nb, ng, nt, nr>>
+     /\ UNCHANGED <<rvars, deleg, stray, unb, redelTo, burned, alien, odd, ovars, nb, ng, na, nt, nr>>
 
 (* MsgUpdateChainOracles(S) by the governance authority.  Refused if the    *)
 (* online power removed is > 0 and >= 30% (truncated) of the online power.  *)
@@ -185,7 +192,7 @@ GovSet(S) ==
      /\ pend' = [o \in Oracle |-> IF o \in removed /\ deleg[o] > 0 THEN FALSE ELSE pend[o]]
      /\ ng' = ng + 1 /\ op' = this
      /\ UNCHANGED <<reg, bridger, ext, val, rec, slashTimes, bidx, eidx, stray, dbal, bal, redelTo, orew, burned, alien, odd,
-                    nb, nm, nt, nr>>
+                    ovars, nb, nm, na, nt, nr>>
 
 (* What end-block slashing does to ONE oracle (keeper level; its cause is   *)
 (* EndBlock.tla's subject, one real path is ObjectAges below).              *)
@@ -195,20 +202,24 @@ Slash(o) ==
   IN IF ~okk THEN Rej(this) ELSE
      /\ online' = [online EXCEPT ![o] = FALSE] /\ slashTimes' = [slashTimes EXCEPT ![o] = @ + 1]
      /\ nm' = nm + 1 /\ op' = this
-     /\ UNCHANGED <<reg, approved, bridger, ext, val, rec, bidx, eidx, mvars, nb, ng, nt, nr>>
+     /\ UNCHANGED <<reg, approved, bridger, ext, val, rec, bidx, eidx, mvars, ovars, nb, ng, na, nt, nr>>
 
 (* A real oracle-set request is created by the end blocker, the oracles in  *)
 (* C confirm every request they are obliged to (created at or after they    *)
 (* joined) with real signatures, more than the signed window passes and the *)
 (* real end blocker runs: exactly the online oracles outside C go offline   *)
-(* and are charged one penalty.                                             *)
+(* and are charged one penalty.  The end blocker of the later block creates *)
+(* the next request (if anybody is online): it stays outstanding (obj) and  *)
+(* everybody registered now has joined before it (late = FALSE).            *)
 ObjectAges(C) ==
   LET this == Op("ObjectAges", None, None, None, None, 0, AsFun(C), "ok")
       hit  == {o \in Oracle : reg[o] /\ online[o] /\ o \notin C}
   IN /\ online' = [o \in Oracle |-> IF o \in hit THEN FALSE ELSE online[o]]
      /\ slashTimes' = [o \in Oracle |-> IF o \in hit THEN slashTimes[o] + 1 ELSE slashTimes[o]]
-     /\ nm' = nm + 1 /\ op' = this
-     /\ UNCHANGED <<reg, approved, bridger, ext, val, rec, bidx, eidx, mvars, nb, ng, nt, nr>>
+     /\ obj' = (\E o \in Oracle : reg[o] /\ online'[o])
+     /\ late' = [o \in Oracle |-> FALSE]
+     /\ na' = na + 1 /\ op' = this
+     /\ UNCHANGED <<reg, approved, bridger, ext, val, rec, bidx, eidx, mvars, nb, ng, nm, nt, nr>>
 
 (* The unbonding period passes and staking's end blocker runs: unbonding    *)
 (* entries are paid to the delegate address, redelegations mature.          *)
@@ -216,7 +227,7 @@ TimePasses ==
   /\ dbal' = [o \in Oracle |-> dbal[o] + unb[o]] /\ unb' = [o \in Oracle |-> 0]
   /\ redelTo' = [o \in Oracle |-> None]
   /\ nt' = nt + 1 /\ op' = Op("TimePasses", None, None, None, None, 0, <<>>, "ok")
-  /\ UNCHANGED <<rvars, deleg, stray, bal, pend, drew, orew, burned, alien, odd, nb, ng, nm, nr>>
+  /\ UNCHANGED <<rvars, deleg, stray, bal, pend, drew, orew, burned, alien, odd, ovars, nb, ng, nm, na, nr>>
 
 (* Rewards are allocated to every validator (what distribution's begin      *)
 (* blocker does with the collected fees): every existing delegation gets a  *)
@@ -224,7 +235,7 @@ TimePasses ==
 Reward ==
   /\ pend' = [o \in Oracle |-> pend[o] \/ deleg[o] > 0]
   /\ nr' = nr + 1 /\ op' = Op("Reward", None, None, None, None, 0, <<>>, "ok")
-  /\ UNCHANGED <<rvars, deleg, stray, unb, dbal, bal, redelTo, drew, orew, burned, alien, odd, nb, ng, nm, nt>>
+  /\ UNCHANGED <<rvars, deleg, stray, unb, dbal, bal, redelTo, drew, orew, burned, alien, odd, ovars, nb, ng, nm, na, nt>>
 
 (* MsgUnbondedOracle: only for an oracle governance removed, once nothing   *)
 (* is unbonding any more: the penalty owed is burned from the delegate      *)
@@ -242,8 +253,9 @@ Unbond(o) ==
      /\ burned' = burned + pen
      /\ bal' = [bal EXCEPT ![o] = @ + dbal[o] - pen] /\ dbal' = [dbal EXCEPT ![o] = 0]
      /\ orew' = [orew EXCEPT ![o] = @ \/ drew[o]] /\ drew' = [drew EXCEPT ![o] = FALSE]
+     /\ late' = [late EXCEPT ![o] = FALSE]
      /\ op' = this
-     /\ UNCHANGED <<online, approved, deleg, stray, unb, redelTo, pend, alien, odd, cvars>>
+     /\ UNCHANGED <<online, approved, deleg, stray, unb, redelTo, pend, alien, odd, obj, cvars>>
 
 GovSets == SUBSET Oracle
 
@@ -382,11 +394,19 @@ A_C13_OfflineOnlyForCause ==
         /\ \/ (op'.name = "Slash" /\ op'.o = o)
            \/ (op'.name = "ObjectAges" /\ ~op'.set[o])
 C13_OfflineOnlyForCause == [][A_C13_OfflineOnlyForCause]_vars
+\* -- "only for [a request] that was created after it joined": an oracle joins anew every time it is (re)activated
+\*    (bonded, or brought back online after a slash OR after a governance removal): from then on it counts as having
+\*    joined after every request still awaiting its signed window, and is not answerable for those.
+\*    (late[o] is projected from the record's real StartHeight against the heights of the outstanding requests.)
+A_C13_JoinedOnActivation ==
+  /\ \A o \in Oracle : (reg'[o] /\ ~online[o] /\ online'[o]) => (late'[o] <=> obj')
+  /\ \A o \in Oracle : late'[o] => (reg'[o] /\ obj')
+C13_JoinedOnActivation == [][A_C13_JoinedOnActivation]_vars
 
 ---------------------------------------------------------------------------
 (* model-checking plumbing *)
 View == svars
-Bounded == nb' <= MaxBonds /\ ng' <= MaxGovs /\ nm' <= MaxMops /\ nt' <= MaxTime /\ nr' <= MaxRewards
+Bounded == nb' <= MaxBonds /\ ng' <= MaxGovs /\ nm' <= MaxMops /\ na' <= MaxAges /\ nt' <= MaxTime /\ nr' <= MaxRewards
 EdgeDump == /\ IF op.name = "Init" \/ op'.res = "ok"
                THEN PrintT(<<"EDGE", ToJson([from |-> Abs, op |-> op', to |-> Abs'])>>)
                ELSE TRUE
